@@ -353,6 +353,8 @@ def embed(event: dict) -> dict:
             return {k: sub(y) for k, y in x.items()}
         if isinstance(x, list):
             return [sub(y) for y in x]
+        if isinstance(x, int) and not isinstance(x, bool) and abs(x) > 2 ** 20:
+            return 2 ** 20 if x > 0 else -(2 ** 20)  # TLC integers are 32 bit (a corrupted count can explode; sums must fit too)
         return x
 
     out = sub(event)
@@ -580,7 +582,30 @@ def merge_event(real: Real, traces: list[ExecutionTrace]) -> dict:
             else:
                 projs.append(raw_projection(m, real))
             how.append(g + ":" + "".join(map(str, perm)))
-    return _event("merge", real, [], EMPTY_EVAL, EMPTY_EVAL, projs, how)
+    # the same cached results analysed repeatedly, as the chromosomes of a population are: every
+    # analysis must give the same answer and must leave the individual traces alone
+    shared = [clone_trace(t) for t in traces]
+    before = [raw_projection(t, real) for t in shared]
+    for perm in list(itertools.permutations(range(len(traces))))[:4]:
+        m = call(fm.analyze_results, _results([shared[i] for i in perm]))
+        if isinstance(m, Exc):
+            projs.append({"cos": [], "cnt": [], "dT": [], "dF": [], "ln": [], "ck": [], "extra": -1 - len(projs)})
+        else:
+            projs.append(raw_projection(m, real))
+        how.append("analyze-shared:" + "".join(map(str, perm)))
+    ev = _event("merge", real, [], EMPTY_EVAL, EMPTY_EVAL, projs, how)
+
+    def plain(x):
+        if isinstance(x, F):
+            return ("F", repr(x.v))
+        if isinstance(x, dict):
+            return {k: plain(v) for k, v in x.items()}
+        if isinstance(x, list):
+            return [plain(v) for v in x]
+        return x
+
+    ev["inputs_kept"] = plain(before) == plain([raw_projection(t, real) for t in shared])
+    return ev
 
 
 # ----------------------------------------------------------------------------- real search runs
